@@ -150,7 +150,7 @@ theorem replace_reading {d d1 : Disk} (hs : SInv d) (v : Vol) (fsL : List LRec) 
     rcases List.mem_append.mp hy with a | a
     · exact hslotok4 y (List.mem_append_left _ a)
     · rcases List.mem_cons.mp a with rfl | a'
-      · refine Or.inr ⟨hst', hua, ?_⟩
+      · refine Or.inl (Or.inr ⟨hst', hua, ?_⟩)
         intro h3'
         simp only at h3' ⊢
         rw [hsb.key]
@@ -177,7 +177,7 @@ theorem replace_reading {d d1 : Disk} (hs : SInv d) (v : Vol) (fsL : List LRec) 
           apply unitAt_congr
           rw [hsame4 _ hnb, setUnit_other _ _ _ _ (fun e => hnotown (by rw [e]; exact hkeyown))]
         rw [hu]
-        rcases hroot.slots _ hxm with h0 | ⟨_, _, hcl⟩
+        rcases (hroot.slots _ hxm).file (by simp only; omega) with h0 | ⟨_, _, hcl⟩
         · simp only at h0; rw [h0] at hst; simp at hst
         · rw [hsb.st] at h3'; exact hcl h3'
       · exact hslotok4 y (List.mem_append_right _ a')
